@@ -413,6 +413,37 @@ def t16_sub(run, fx):
                          "%s:%s" % (b.file, b.line))
             else:
                 run.ok(rule, "every contour iteration calls %s" % m)
+        # inside a contour every point taken from the point iterator produces a segment: each trip round the inner loop passes line_to or
+        # quadratic_curve_to
+        if sink.get("line_to"):
+            lt = sink["line_to"][0][0]
+            ih = None
+            d2 = lt
+            while d2 != 0:
+                d2 = idom[d2]
+                if any(b.dominates(d2, p) for p in b.preds(d2)):
+                    ih = d2
+                    break
+            if ih is not None and ih != hdr:
+                seg = frozenset(bi for m in ("line_to", "quadratic_curve_to") for bi, _ in sink.get(m, []))
+                # natural loop of ih: blocks that reach a back edge into ih without leaving through ih
+                body_ = {ih}
+                stack_ = [p for p in b.preds(ih) if b.dominates(ih, p)]
+                while stack_:
+                    x = stack_.pop()
+                    if x in body_:
+                        continue
+                    body_.add(x)
+                    stack_.extend(p for p in b.preds(x) if b.reachable(p))
+                outside = frozenset(x for x in range(len(b.blocks)) if x not in body_)
+                skipping = any(ih in b.reach_from(s0, seg | outside) for s0 in b.succs(ih) if s0 in body_ and s0 not in seg)
+                if skipping:
+                    run.fail(rule, "subpath:segment", "visit_simple_glyph_outline: a point taken from the contour can be passed over without a line_to / "
+                             "quadratic_curve_to - the sub-path no longer visits the contour's points in order", "%s:%s" % (b.file, b.line))
+                else:
+                    run.ok(rule, "every point of a contour produces a segment")
+            else:
+                run.anchor_missing(rule, "loop over the points of a contour")
         for m in ("move_to", "line_to", "quadratic_curve_to"):
             for bi, t in sink.get(m, []):
                 for k, a in enumerate(t["args"][1:]):
@@ -461,6 +492,44 @@ def t16_pair(run, fx):
     run.ok(rule, "%d take site(s) on borrowed tables examined" % n)
 
 
+def t16_args(run, fx):
+    rule = "T16-ARGS"
+    run.rule(rule, "component arguments: ARG_1_AND_2_ARE_WORDS selects 16-bit over 8-bit values and ARGS_ARE_XY_VALUES selects signed offsets over "
+                   "unsigned point numbers - in CompositeGlyphArgument::read_dep the reads of i16 / u16 / i8 / u8 sit under (words, xy) = "
+                   "(true, true) / (true, false) / (false, true) / (false, false)")
+    b = fx.body("<tables::glyf::CompositeGlyphArgument as binary::read::ReadBinaryDep>::read_dep")
+    if b is None:
+        return run.anchor_missing(rule, "CompositeGlyphArgument::read_dep")
+    import guards
+    prov = sym.Prov(b)
+    conds = guards.bool_call_conditions(b, prov)
+    want = {"read_i16be": (True, True), "read_u16be": (True, False), "read_i8": (False, True), "read_u8": (False, False)}
+    seen = 0
+    for bi, t in b.calls():
+        name = (t["callee"].get("path") or "").split("::")[-1]
+        if name not in want:
+            continue
+        seen += 1
+        got = {}
+        for tb, fb, call, sw in conds:
+            nm = (call[4] or call[1] or "").split("::")[-1]
+            key = "words" if nm == "arg_1_and_2_are_words" else ("xy" if nm == "args_are_xy_values" else None)
+            if key is None:
+                continue
+            if tb is not None and b.dominates(tb, bi):
+                got[key] = True
+            if fb is not None and b.dominates(fb, bi):
+                got[key] = False
+        exp = want[name]
+        if got.get("words") == exp[0] and got.get("xy") == exp[1]:
+            run.ok(rule, "%s under words=%s, xy=%s" % (name, exp[0], exp[1]))
+        else:
+            run.fail(rule, "args:%s" % name, "CompositeGlyphArgument::read_dep reads %s under words=%s, xy=%s; the specification has it under words=%s, xy=%s "
+                     "(offsets are signed, point numbers unsigned)" % (name, got.get("words"), got.get("xy"), exp[0], exp[1]), b.loc(t))
+    if seen < 4:
+        run.anchor_missing(rule, "four primitive reads in CompositeGlyphArgument::read_dep (found %d)" % seen)
+
+
 def check(run, fx, tier, floors=True):
     recursion.run_rule(run, fx, "C01-a", lambda f: any("tables::glyf::outline" in p for p in f.local_paths), floors_n=1 if floors else None)
     rules_C01.rule_panics(run, fx, "C01-b", lambda b: b.file in FILES, floors, floor_n=5)
@@ -469,6 +538,8 @@ def check(run, fx, tier, floors=True):
         t16_pred(run, fx)
         t16_mat(run, fx)
         t16_offs(run, fx, floors)
+        if floors or fx.body("<tables::glyf::CompositeGlyphArgument as binary::read::ReadBinaryDep>::read_dep") is not None:
+            t16_args(run, fx)
     # the glyf outline visitor only exists with the `outline` feature: fail closed on the superset configuration, skip where it is compiled out
     if (floors and run.config in (None, "prince", "default")) or any(b.root.endswith("::visit_composite_glyph_outline") for b in fx.bodies):
         t16_comp(run, fx)
